@@ -130,6 +130,14 @@ def load_corpus():
                 if fn.endswith('.diff'):
                     ms.append({'id': 'ns-%s-%s' % (d, fn[:-5].replace('patch', '')), 'kind': 'neutral', 'rules': [], 'properties': allp,
                                'patch': os.path.join('neutral_seeded', d, fn), 'desc': 'independent refactoring %s/%s' % (d, fn)})
+    # behaviour-breaking changes written by independent sub-agents (confirmed; see seeded/*/meta.json):
+    # each must be reported by the check of the property it was written against
+    sd = os.path.join(HERE, 'seeded')
+    if os.path.isdir(sd):
+        for d in sorted(os.listdir(sd)):
+            if os.path.exists(os.path.join(sd, d, 'patch.diff')):
+                ms.append({'id': 'sd-' + d, 'kind': 'mutant', 'rules': [], 'properties': [d.split('-')[0]],
+                           'patch': os.path.join('seeded', d, 'patch.diff'), 'desc': 'independent seeded change ' + d})
     return ms
 
 
